@@ -102,6 +102,9 @@ L3PLUS = L3 + L3CONJ[:24]
 # two-literal conjunctive consequents (their non-falsification CNF has two clauses)
 L3CC = [(A(l, m), k) for k in LITS3 for l, m in itertools.combinations(LITS3, 2) if len({_at(l), _at(m), _at(k)}) == 3]
 L3MIX = L3 + L3CC
+# three-literal conjunctive consequents (three clauses: a MaxSAT cost of 3 for ONE falsified conditional, more than two falsified
+# single-clause conditionals cost - where clause cost and number of conditionals come apart)
+L3C3 = L3 + [(A(x, A(y, z)), TOP) for x in (V("a"), N(V("a"))) for y in (V("b"), N(V("b"))) for z in (V("c"), N(V("c")))]
 L3T = L3 + [(l, TOP) for l in LITS3]
 assert len(L3) == 24 and len(L3T) == 30 and len(L3PLUS) == 48
 
